@@ -15,7 +15,7 @@ use zlink_core::Reply;
 pub const RULE: &str = "case = an operation list over {Set (values 1,2,3,... through the state or a \
 clone of it), SetSame (set the value that is already current), Subscribe, Poll(i) (one poll_next of subscriber i with that subscriber's own counting waker), Clone, \
 DropOriginal} with up to 6 sets and up to 3 subscribers created at arbitrary points, followed by \
-draining every subscriber, then dropping every state and draining again; run against \
+draining every subscriber (every case is also run without this step, so that the states go away while values are still undelivered), then dropping every state and draining again; run against \
 zlink_tokio::notified and zlink_smol::notified. Oracle (model): what subscriber i receives is a \
 subsequence of the values set after it subscribed, each marked continues = \
 true; whenever a poll returns Pending its last value is the last value set since it subscribed and, if anything was set since it last was up to date, it has received something since (it \
@@ -196,7 +196,7 @@ impl SubModel {
 }
 
 /// Executes the operations; returns the trace (for cross-runtime statistics) or the violation.
-fn run_ops<N: Notified>(ops: &[Op], rt: Runtime, stats: &mut Stats) -> Result<Vec<(u8, Vec<u64>)>, Fail> {
+fn run_ops<N: Notified>(ops: &[Op], rt: Runtime, drain_first: bool, stats: &mut Stats) -> Result<Vec<(u8, Vec<u64>)>, Fail> {
     let name = format!("{rt:?}").to_lowercase();
     let fail = |sig: &str, m: String| Err(Fail::new(&format!("{sig}"), format!("[{name}] {m}")));
     let mut states: Vec<Option<N::State>> = vec![Some(N::new(0))];
@@ -320,8 +320,16 @@ fn run_ops<N: Notified>(ops: &[Op], rt: Runtime, stats: &mut Stats) -> Result<Ve
             }
         }
     }
-    // drain every subscriber (state still alive): must converge on the latest value
+    // drain every subscriber (state still alive): must converge on the latest value. In the
+    // second variant of every case this step is left out: the states go away while subscribers
+    // still have a value waiting, which they must get before they see the end.
     for (i, (s, m)) in subs.iter_mut().enumerate() {
+        if !drain_first {
+            if m.seen.last() != m.set_since.last() {
+                stats.class("state-dropped-with-a-value-undelivered");
+            }
+            continue;
+        }
         for _ in 0..10 {
             let w = m.waker.clone();
             let got = poll_with(s, &w);
@@ -404,9 +412,11 @@ pub fn check_case(c: &Case, stats: &mut Stats) -> CaseResult {
         stats.nontrivial_hash(hash_of(&c.ops));
     }
     stats.sample(|| json!({"ops": c.ops.iter().map(|o| format!("{o:?}")).collect::<Vec<_>>().join(" ")}));
-    let a = run_ops::<TokioRt>(&c.ops, Runtime::Tokio, stats)?;
+    let a = run_ops::<TokioRt>(&c.ops, Runtime::Tokio, true, stats)?;
     stats.eval();
-    let b = run_ops::<SmolRt>(&c.ops, Runtime::Smol, stats)?;
+    let b = run_ops::<SmolRt>(&c.ops, Runtime::Smol, true, stats)?;
+    run_ops::<TokioRt>(&c.ops, Runtime::Tokio, false, stats)?;
+    run_ops::<SmolRt>(&c.ops, Runtime::Smol, false, stats)?;
     if a == b {
         stats.class("tokio-and-smol-traces-identical");
     } else {
